@@ -200,6 +200,18 @@ def run(ctx):
         if c["cfg"].get("transfer") == "random":
             c["cfg"]["transfer"] = "fractional"
         ctx.guard("check", check_case, ctx, {"k": k, "cfg": c["cfg"], "profile": c["profile"], "max_runs": 3 if ctx.quick else 10})
+        # look-alike requests right afterwards in the same process: same ballots with another candidate list (an extra / a
+        # dropped candidate nobody voted for, another listing order), or the same rankings with the weights permuted
+        if i % 2 == 0:
+            if rnd.random() < 0.6:
+                sib = cases.sibling_candidates_changed(rnd, c["profile"], c["cfg"])
+            else:
+                sp = cases.sibling_weights_permuted(rnd, c["profile"])
+                sib = (sp, c["cfg"]) if sp is not None else None
+            if sib is not None:
+                ctx.count("sibling_requests")
+                ctx.guard("check", check_case, ctx, {"k": k, "cfg": sib[1], "profile": sib[0], "max_runs": 2 if ctx.quick else 5,
+                                                    "prelude": {"k": k, "cfg": c["cfg"], "profile": c["profile"], "max_runs": 3}})
 
 
 def replay(ctx, case):
